@@ -1138,6 +1138,9 @@ class Interp:
         if k == "propobj":
             return ("opaque", "property object called")
         if k == "builtin":
+            pre = self._prelude_for(f[1], args, kwargs)
+            if pre is not None:
+                return self.call_function(st, self.facts.prelude().functions[pre[0]], pre[1], {}, n, tree)
             return self.call_builtin(st, f[1], self.force_args(st, args, tree, n), kwargs, n, tree)
         if k == "extname":
             nm = f[1]
@@ -1145,6 +1148,9 @@ class Interp:
             if nm in ("typing.cast", "typing_extensions.cast") and len(args) == 2:
                 self._note_cast(n, args[1])
                 return args[1]
+            pre = self._prelude_for(nm, args, kwargs)
+            if pre is not None:
+                return self.call_function(st, self.facts.prelude().functions[pre[0]], pre[1], {}, n, tree)
             if nm == "itertools.chain" and not kwargs:
                 return self.new_list([("s", a) for a in args], n, tree)
             if nm == "functools.partial" and args:
@@ -1206,6 +1212,38 @@ class Interp:
         # calling a value we cannot resolve (dict-dispatched callable, lambda, parameter)
         tree.append(("dyncall", f, tuple(args), line))
         return ("call", "<dyn>", (f,) + tuple(args), tuple(sorted(kwargs.items())))
+
+    def _callable_known(self, f) -> bool:
+        return isinstance(f, tuple) and bool(f) and f[0] in ("func", "bound", "closure", "lambda", "partial", "attrgetter", "itemgetter", "class") \
+            and (f[0] != "lambda" or len(f) > 3)
+
+    def _prelude_for(self, name, args, kwargs):
+        """(prelude function name, positional args) when a library call is modelled by its Python definition."""
+        kw = dict(kwargs)
+        if name in ("any", "all") and len(args) == 1 and not kw:
+            return ("p_" + name, list(args))
+        if name == "map" and not kw and len(args) == 2 and self._callable_known(args[0]):
+            return ("p_map", list(args))
+        if name == "map" and not kw and len(args) == 3 and self._callable_known(args[0]):
+            return ("p_map2", list(args))
+        if name == "filter" and not kw and len(args) == 2:
+            if is_const(args[0], None):
+                return ("p_filter_none", [args[1]])
+            if self._callable_known(args[0]):
+                return ("p_filter", list(args))
+        if name == "itertools.starmap" and not kw and len(args) == 2 and self._callable_known(args[0]):
+            return ("p_starmap", list(args))
+        if name == "functools.reduce" and not kw and len(args) == 3 and self._callable_known(args[0]):
+            return ("p_reduce", list(args))
+        if name == "itertools.accumulate" and len(args) in (1, 2) and "initial" in kw and set(kw) <= {"initial", "func"}:
+            fn = args[1] if len(args) == 2 else kw.get("func")
+            if fn is not None and self._callable_known(fn):
+                return ("p_accumulate_initial", [args[0], fn, kw["initial"]])
+        if name in ("itertools.takewhile", "itertools.dropwhile") and not kw and len(args) == 2 and self._callable_known(args[0]):
+            return ("p_" + name.rsplit(".", 1)[1], list(args))
+        if name == "itertools.chain.from_iterable" and not kw and len(args) == 1:
+            return ("p_chain_from_iterable", list(args))
+        return None
 
     def call_builtin(self, st, name, args, kwargs, n, tree):
         line = getattr(n, "lineno", None)
@@ -2011,6 +2049,7 @@ class Interp:
         fz = {"state": st, "names": names, "level": level}
         self.fusions.append(fz)
         carry = {key(nm): st.env[nm] for nm in names if nm in st.env}
+        depth_here = len(self.stack)        # the consumer's frame is the top of the stack now
 
         def hook(v, gst, gtree, line, is_from=False):
             if is_from:
@@ -2025,9 +2064,13 @@ class Interp:
                     st.env[k] = val
             self.bind_target(st, s.target, v)
             fz["in_body"] = True
+            # the loop body belongs to the consumer's frame: the producer's frames are suspended while it runs
+            suspended = self.stack[depth_here:]
+            del self.stack[depth_here:]
             try:
                 o = self.exec_block(s.body, st, gtree)
             finally:
+                self.stack.extend(suspended)
                 fz["in_body"] = False
             end = self._merge_exit(o.live, o.cont)
             if end is not None:
@@ -2051,14 +2094,16 @@ class Interp:
 
     def st_For(self, s, st, tree):
         # a loop over a lazy generator of the repository is fused with the generator's body
-        if isinstance(s.iter, ast.Call) and not s.orelse:
+        if isinstance(s.iter, (ast.Call, ast.Name)) and not s.orelse:
             exits = any(isinstance(x, (ast.Break, ast.Return)) for b in s.body for x in ast.walk(b))
             if not exits:
                 probe_tree: list = []
                 pst = st.fork()
                 itv = self.ev(pst, s.iter, probe_tree)
                 g = self.obj(itv)
-                if isinstance(g, HGen) and g.fi is not None and g.forced is None and g.qualname not in self.no_fuse:
+                if isinstance(g, HGen) and g.fi is not None and g.forced is None and g.qualname not in self.no_fuse \
+                        and not getattr(g, "consumed", False):
+                    g.consumed = True       # a generator object is iterated once; a second loop over it would see nothing
                     st.env, st.ext = pst.env, pst.ext
                     tree.extend(probe_tree)
                     return self._fuse_for(s, st, tree, itv)
